@@ -15,6 +15,9 @@ CHECKS = {
  "C04": ("fault_enumeration", "online monitor over the virtual transport's send log (cause attribution of every retransmission with sound lower bounds) + stuck detector for completion",
    "Fault scripts enumerate (start state x end-of-life x RetryTime) cells and place PRNG faults (carrier drop, other drop, new pipe, timer expiry, slow peer) at lifecycle points; a trace monitor requires every retransmission to be byte-identical and to have a cause (its previous carrier closed, or a retry interval provably elapsed), nothing after answer/supersede/cancel/close, cancellation instead of resend with RetryTime=0, and completion once a peer answers (stuck detector, no timeouts). Fault enumeration is the right level: the property quantifies over fault sequences at lifecycle points, which the harness can place exactly through the virtual transport.",
    "Trusted: vt transport timestamps (one monotonic clock, taken before the fault/at Send entry), the cause-attribution rules. 'Eventually' is restated as: once faults stop, the operation completes or the process is provably quiescent.", "3/C04"),
+ "C13": ("exploration", "online lifecycle monitor (per-pipe event automaton in the PipeEventHook + recording ProtocolBase wrapper + process-wide live-id set + allocator census hook) with stuck detector for carry-on",
+   "PRNG scripts over the virtual transport (1-4 sockets at once, listener and dialer side, 12 protocols each wrapped in a recording ProtocolBase) and over all six real transports place per-connection actions (peer drop, Pipe.Close, hook close during Attaching/Attached, protocol refusal, second PAIR peer) with library yield points perturbing the schedule; an online monitor checks each pipe's event sequence, add/remove pairing, id range/uniqueness until Detached returned, id release at the end, and that a fresh connection attaches after every rejection; read-only pipe options are compared with the actual connection per transport. Exploration: the property quantifies over schedules and fault sequences.",
+   "Trusted: the hook/wrapper monitor (its state is updated under its own mutex inside the very callbacks it observes), vt transport, allocator accessor hook. Only executed interleavings are decided.", "3/C13"),
 }
 
 NOT_YET = {}
